@@ -182,6 +182,13 @@ func comparePreReleaseIdentifier(id1, id2 string) int {
 	// Try to parse as integers first
 	num1, err1 := strconv.Atoi(id1)
 	num2, err2 := strconv.Atoi(id2)
+	// Only identifiers made of digits are numeric ("-5" or "+5" are alphanumeric in SemVer)
+	if strings.Trim(id1, "0123456789") != "" {
+		err1 = strconv.ErrSyntax
+	}
+	if strings.Trim(id2, "0123456789") != "" {
+		err2 = strconv.ErrSyntax
+	}
 
 	if err1 == nil && err2 == nil {
 		// Both are numbers, compare numerically
